@@ -197,11 +197,45 @@ def exc_matches(raised: str, caught: str) -> bool:
 
 
 def handler_names(h: ast.ExceptHandler) -> List[str]:
+    from .loader import EXC_ALIASES
+
     if h.type is None:
         return ["BaseException"]
-    if isinstance(h.type, ast.Tuple):
-        return [dotted(e) or norm(e) for e in h.type.elts]
-    return [dotted(h.type) or norm(h.type)]
+    elts = h.type.elts if isinstance(h.type, ast.Tuple) else [h.type]
+    out = []
+    for e in elts:
+        if isinstance(e, ast.Starred):
+            e = e.value
+        if isinstance(e, ast.Name) and e.id in EXC_ALIASES:
+            out.extend(EXC_ALIASES[e.id])
+        else:
+            out.append(dotted(e) or norm(e))
+    return out
+
+
+def suppress_try(with_node):
+    """`with contextlib.suppress(A, B): body` read as `try: body / except (A, B): pass` (None for any other with)."""
+    cached = getattr(with_node, "_pgv_suppress", False)
+    if cached is not False:
+        return cached
+    res = None
+    for item in getattr(with_node, "items", []):
+        ce = item.context_expr
+        if isinstance(ce, ast.Call) and (dotted(ce.func) or "").split(".")[-1] == "suppress" and ce.args and not ce.keywords:
+            typ = ast.Tuple(elts=list(ce.args), ctx=ast.Load()) if len(ce.args) > 1 or isinstance(ce.args[0], ast.Starred) else ce.args[0]
+            hd = ast.ExceptHandler(type=typ, name=None, body=[ast.Pass()])
+            res = ast.Try(body=with_node.body, handlers=[hd], orelse=[], finalbody=[])
+            for n_ in (hd, res, hd.body[0]):
+                ast.copy_location(n_, with_node)
+            ast.fix_missing_locations(res)
+            res._pgv_origin = with_node
+            hd._pgv_origin = with_node
+            break
+    try:
+        with_node._pgv_suppress = res
+    except Exception:
+        pass
+    return res
 
 
 def assigned_names(nodes) -> set:
@@ -973,9 +1007,15 @@ class Walker:
                         self._bind(s2, item.optional_vars, UNK, stmt, defexpr=item.context_expr)
                     nxt.append(s2)
             cur = nxt
+        sup = suppress_try(stmt)
         for s in cur:
             for k, v, s2 in self.exec_block(stmt.body, s):
                 s2.add(Event("exit", stmt, None, self.frame))
+                if sup is not None and k == "raise" and not str(v).startswith("<Gen") \
+                        and any(exc_matches(str(v), n) for n in handler_names(sup.handlers[0])):
+                    s2.add(Event("except", sup.handlers[0], str(v), self.frame))
+                    out.append(("next", None, s2))
+                    continue
                 out.append((k, v, s2))
         return out
 
